@@ -189,6 +189,23 @@ func splitAndTerm(t string) []string {
 		return out
 	}
 	if op == "forall" && len(args) == 2 {
+		body := args[1]
+		pats := ""
+		if bargs, bop := sexprArgs(body); bop == "!" && len(bargs) >= 1 {
+			body = bargs[0]
+			pats = " " + strings.Join(bargs[1:], " ")
+		}
+		if pats != "" {
+			rs := splitAndTerm(body)
+			if len(rs) > 1 {
+				var out []string
+				for _, r := range rs {
+					out = append(out, "(forall "+args[0]+" (! "+r+pats+"))")
+				}
+				return out
+			}
+			return []string{t}
+		}
 		rs := splitAndTerm(args[1])
 		if len(rs) > 1 {
 			var out []string
